@@ -954,6 +954,20 @@ fn main() {
             && body("Context", "subscribe").contains("crate :: Broker :: subscribe ( self . weak_sender ( ) ) . await");
         sys.push(("brokerOpsAreSendsThroughTheRegistry", ok3, loc("Broker", "publish")));
     }
+    {
+        // the handler timeout: read from the configuration unchanged, raced against the payload future of a task
+        // and against nothing else (not `started`, not `stopped`, not stream items), continue / fail as configured
+        let cl = body("Environment", "create_loop");
+        let cs = body("Environment", "create_loop_on_stream");
+        let ok = cl.contains("let timeout = self . config . timeout ;")
+            && cl.matches("timeout_fut (").count() == 1
+            && cl.contains("if let Err ( err ) = timeout_fut ( f ( & mut actor , & mut self . ctx ) , timeout ) . await { if self . config . fail_on_timeout {")
+            && cl.contains("return Err ( err ) ;")
+            && cl.contains("actor . started ( & mut self . ctx ) . await ? ;")
+            && cl.contains("actor . stopped ( & mut self . ctx ) . await ;")
+            && !cs.contains("timeout_fut");
+        sys.push(("timeoutGuardsTaskPayloadsOnly", ok, loc("Environment", "create_loop")));
+    }
     for (n, v, w) in &sys {
         o.put(&format!("sys.{}", n), if *v { "true" } else { "false" }, w.clone());
     }
